@@ -228,6 +228,12 @@ def r5(ctx, retsets):
         """the expression as a sum of terms with integer coefficients (however the additions and subtractions are grouped)"""
         acc = {} if acc is None else acc
         if e[0] == "cast":
+            inner = e[2]
+            while inner[0] == "cast":
+                inner = inner[2]
+            if e[1] in ("zext", "trunc") and inner[0] == "bin" and inner[1] in ("add", "sub"):
+                # a sum or difference formed in a narrower unsigned type and widened afterwards wraps around instead of going negative
+                narrow.append(e)
             return lin(e[2], sign, acc)
         if e[0] == "c":
             acc[("k",)] = acc.get(("k",), 0) + sign * e[1]
@@ -239,9 +245,12 @@ def r5(ctx, retsets):
         return {k: v for k, v in acc.items() if v}
     exprs = []
     seenphi = set()
+    narrow = []
 
     def leaves(v):
-        e = vf.expr(fn, v)
+        e = vf.expr(fn, v, keep_casts=True)
+        while e[0] == "cast" and e[2][0] == "phi":
+            e = e[2]
         if e[0] == "phi" and e[1] not in seenphi:
             seenphi.add(e[1])
             for vv, bb in fn.insts[e[1]]["inc"]:
@@ -270,8 +279,9 @@ def r5(ctx, retsets):
                 cmpd = lin(("bin", "sub", vf.expr(fn, i["a"]), vf.expr(fn, i["b"])))
                 if cmpd == L or cmpd == {k: -v for k, v in L.items()}:
                     clamp = True
-        good = sum_ok and now_ok and bool(clk) and clamp
-        detail = "wait = %s, clamped at 0: %s, now read from the clock: %s" % (vf.show(d), clamp, bool(clk))
+        good = sum_ok and now_ok and bool(clk) and clamp and not narrow
+        detail = "wait = %s, clamped at 0: %s, now read from the clock: %s%s" % (
+            vf.show(d), clamp, bool(clk), "; part of it is computed in a narrower unsigned type and widened afterwards (wraps instead of going negative)" if narrow else "")
     ctx.check(good, "C17.R5", "wait-expression", c.loc(), detail, key="C17.R5:wait")
     # the wait is computed from a fresh clock reading for every receive (no retry loop that reuses a stale wait)
     inloop = [body for h, body in fn.loops().items() if c.block.id in body]
